@@ -3,6 +3,8 @@ import os
 import shutil
 import subprocess
 
+import re
+
 import lib
 import tolean
 import aare
@@ -122,13 +124,24 @@ def run(ctx):
     # names built from the rewrite list itself: for every pattern of the list, strings it matches, placed in a path
     import rx as RX
     nsampled = 0
+    markers = {r for _p, r in T['Regex']['logs']['regResolveLogs']}
     for pat, _repl in T['Regex']['logs']['regResolveLogs']:
+        if pat in markers:
+            continue            # the pattern undoes a marker an earlier pair of the list wrote (@{PROC}/one/): not a name the kernel logs
         try:
             ast = RX.parse(pat)[0]
         except RX.Unsupported:
             continue
         for _ in range(4 if ctx.tier == 'quick' else 40):
             w = RX.sample(ast, rng)
+            # a pattern written against already generalised text (@{run}/media/...): back to a concrete path
+            for var, val in (('@{run}', '/run'), ('@{HOME}', '/home/alice'), ('@{PROC}', '/proc'), ('@{sys}', '/sys'), ('@{bin}', '/usr/bin'),
+                             ('@{lib}', '/usr/lib'), ('@{user_config_dirs}', '/home/alice/.config'), ('@{user_cache_dirs}', '/home/alice/.cache'),
+                             ('@{user_share_dirs}', '/home/alice/.local/share'), ('@{tmp}', '/tmp'), ('@{etc_ro}', '/etc'), ('@{etc_rw}', '/etc'),
+                             ('@{MOUNTS}', '/media/alice/disk'), ('@{pid}', '4321'), ('@{uid}', '1000'), ('@{user}', 'alice')):
+                w = w.replace(var, val)
+            if re.search(r'/(proc|task)/0[0-9]*(/|$)', w):
+                continue        # no process or thread has id 0 or an id written with a leading zero
             if not w or '@{' in w or '//' in w or any(ch in w for ch in '\\*?[]{}'):
                 continue        # the kernel logs normalised paths: no empty component
             if w.startswith('/'):
